@@ -192,6 +192,41 @@ Proof.
 Qed.
 
 
+(* an update after a kill inside Close: whatever point of the compaction the kill hit (temporary copy absent / empty / torn / complete,
+   compacted copy published next to the original, original removed), a status update of ANY run recorded afterwards by a new process is
+   what all queries answer - on top of the run map before or after the close.  Reasons: no pattern matches the temporary copy (neither
+   the lookup nor the listings see it), and next to its original the compacted copy is the file the reverse-order lookup finds and the
+   listings read. *)
+Theorem close_then_update0 es now fs' d req tag size now2 : premises loc dirhash D days K (es ++ [EOp (OClose now)]) ->
+  In fs' (crash_states loc dirhash (y_h (yrun loc dirhash sys_init es)) (OClose now)) -> In d D ->
+  let u := OUpdate d req tag size now2 in
+  let fs2 := hfs (apply loc dirhash (fresh_state fs') u) in
+  answers0 fs2 (sp_apply (sp_state es) u) \/ answers0 fs2 (sp_apply (sp_state (es ++ [EOp (OClose now)])) u).
+Proof.
+  intros P IN Id u fs2.
+  destruct (premises_snoc es _ P) as [Pes [Oin [Ook Ohk]]].
+  pose proof (reach_inv loc dirhash D days K OK KC es Pes) as I.
+  set (ys := fold_left (ysstep loc dirhash) es ysys_init) in *.
+  destruct I as [Ih _ Iin _ [L R] Iok Iseen _ _].
+  rewrite Ih in IN. rewrite (crash_states_render loc dirhash D days K OK KC (OClose now) (ys_h ys) Iin Oin) in IN.
+  apply in_map_iff in IN. destruct IN as [s' [E IN]].
+  destruct Iin as [KI [ND [CI WI]]].
+  assert (SI : state_in D K (ys_h ys)) by exact (conj KI (conj ND (conj CI WI))).
+  destruct (scrash_in D K _ _ s' KI ND (sprims_in loc dirhash D days K OK KC (OClose now) (ys_h ys) SI Oin) IN) as [KI' ND'].
+  assert (SD : state_in D K (dead s')). { split; auto. split; auto. split; [intros e []|exact Logic.I]. }
+  assert (UI : op_in D K u) by exact Id.
+  destruct (apply_render loc dirhash D days K OK KC u (dead s') SD UI) as [AR [KI2 [ND2 _]]].
+  assert (F2 : fs2 = render_fs dirhash (sst (sapply rname (rpath loc dirhash) (dead s') u))).
+  { unfold fs2, fresh_state. rewrite <- E. change {| hfs := render_fs dirhash s'; hwr := None; hcache := [] |} with (render_state dirhash (dead s')).
+    rewrite AR. reflexivity. }
+  assert (LT : forall w, swr (ys_h ys) = Some w -> String.ltb (rpath loc dirhash (sw_key w)) (rpath loc dirhash (twin (sw_key w))) = true).
+  { intros w EW. unfold wr_in in WI. rewrite EW in WI. destruct WI as [W1 [[W2 W3] _]].
+    apply (nk_twin_lt loc dirhash D days K OK); auto. }
+  rewrite F2. rewrite sp_state_snoc. simpl fst.
+  destruct (close_then_update rname (rpath loc dirhash) (ys_h ys) (sp_state es) L (ys_seen ys) now s' d req tag size now2 R Iok Iseen Ook Ohk LT IN) as [X|X];
+    [left|right]; apply answers_render; auto.
+Qed.
+
 (* retention, in full: every crash state answers EVERY query as the run map in which some of the runs that are up for removal are
    already gone (and nothing else has changed) *)
 Theorem crash_removeold_full0 es d cutoff fs' : premises loc dirhash D days K (es ++ [EOp (ORemoveOld d cutoff)]) ->
